@@ -44,6 +44,10 @@ func ConcurrentSub(name, what string, calls func(tier string) []Call, pairs func
 	return ConcurrentSubSweep(name, what, calls, pairs, DefaultProbes, qBound, tBound)
 }
 
+// ConcRegistry maps the names of the concurrent sub-checks built in this process to their call lists
+// (used by the free-running race-detector pass, which runs the same calls).
+var ConcRegistry = map[string]func(tier string) []Call{}
+
 // DefaultProbes selects at most 24 (quick) / 96 (thorough) evenly spaced calls as SWEEP probes.
 func DefaultProbes(tier string, n int) []int {
 	max := 24
@@ -66,6 +70,7 @@ func DefaultProbes(tier string, n int) []int {
 // is churned (evictions, slot collisions, growth) then happens while the probe is in flight. SWEEP pairs
 // are explored with one preemption (either thread is interrupted once, at any of its sync operations).
 func ConcurrentSubSweep(name, what string, calls func(tier string) []Call, pairs func(tier string, n int) [][2]int, probes func(tier string, n int) []int, qBound, tBound int) *Sub {
+	ConcRegistry[name] = calls
 	var cl []Call
 	var want []string
 	var tierOf string
